@@ -69,6 +69,8 @@ def roi : M (Option (Int × Int)) → String | .ok none => "none" | .ok (some v)
 def ri : M Int → String | .ok v => toString v | .error e => se e
 def rlog : M (List (Int × Int)) → String
   | .ok v => " ".intercalate (v.map fun c => toString c.1 ++ "," ++ toString c.2) | .error e => se e
+def rtab : M (List (List Float)) → String
+  | .ok v => " | ".intercalate (v.map fun r => " ".intercalate (r.map sf)) | .error e => se e
 def DBLMAX : Float := Float.ofBits 0x7FEFFFFFFFFFFFFF
 /-- an uninterpreted function of two ints given by its table -/
 def tbl (t : List ((Int × Int) × Float)) (p : Int × Int) : Float := ((t.find? (fun e => e.1 == p)).map (·.2)).getD NANF
@@ -159,6 +161,27 @@ def tie3_tests(a, rng, tests):
             return " ".join(",".join(str(tr.uid).split(".")[-2:]) for tr in tc)
         tests.append(("split(feature)", "rlog (Gen.Segmentation.split_feature (%d) %s %s (tbl [%s]))" % (
             m, lflist(mark), lf(limit), ", ".join("((%d, %d), %s)" % (b, e, lf(v)) for (b, e), v in table)), run, str))
+    # ---- C12 the M table of optimalPartition (`return backward(M)` is translated as `return M`)
+    import numpy as np
+    for _ in range(n):
+        m = rng.choice([0, 1, 2, 3, 4, 5, 5, 6, 6, 7])
+        C = [[float(rng.choice([0, 1, 1, 2, 3, 5, 8])) if rng.random() < 0.8 else rng.uniform(0, 9) for _ in range(m)] for _ in range(m)]
+        if rng.random() < 0.1 and m:
+            C[rng.randrange(m)][rng.randrange(m)] = rng.choice([nan, inf])
+        mode = rng.choice([0, 0, 1, 1, 2, -1])
+
+        def run(C=C, mode=mode, m=m):
+            old = SEG.backward
+            SEG.backward = lambda M: M
+            try:
+                M = SEG.optimalPartition(np.array(C, dtype=float).reshape((m, m)) if m else np.zeros((0, 0)), mode, False)
+            except ValueError:
+                return "err:value"
+            finally:
+                SEG.backward = old
+            return " | ".join(" ".join(pf(x) for x in r) for r in M)
+        tests.append(("optimalPartition(M)", "rtab (Gen.Segmentation.optimalPartition_tables ([%s] : List (List Float)) (%d) false)" % (
+            ", ".join(lflist(r) for r in C), mode), run, str))
     # ---- C15 Kernel.evaluate / toSlidingWindow / Filter.execute with a Kernel object
     for _ in range(n):
         ca, cb = rng.choice([0.0, 1.0, -0.5, 0.25]), rng.choice([0.0, 1.0, 2.0, -1.0])
